@@ -1561,3 +1561,89 @@ fn remove_nth(s: &mut Vec<Stmt>, k: &mut usize) -> bool {
     }
     false
 }
+
+
+// ---------------------------------------------------------------------------------------------
+// Structural twins: the same program with every literal changed (same statement shapes and
+// counts, different text), optionally with a statement that fails at run time appended.
+
+fn twin_expr(e: &Expr, k: u32) -> Expr {
+    match e {
+        Expr::Int(i) => Expr::Int(i.wrapping_add(k) % 1000),
+        Expr::Str(s) => Expr::Str(format!("{}~{}", s, k)),
+        Expr::List(l) => Expr::List(l.iter().map(|x| twin_expr(x, k)).collect()),
+        Expr::Set(l) => Expr::Set(l.iter().map(|x| twin_expr(x, k)).collect()),
+        Expr::ListComp(a, v, b) => Expr::ListComp(Box::new(twin_expr(a, k)), v.clone(), Box::new(twin_expr(b, k))),
+        Expr::SetComp(a, v, b) => Expr::SetComp(Box::new(twin_expr(a, k)), v.clone(), Box::new(twin_expr(b, k))),
+        Expr::Scoped(s, n) => Expr::Scoped(Box::new(twin_expr(s, k)), n.clone()),
+        Expr::Call(f, ps) => {
+            if f == "format" && !ps.is_empty() {
+                // keep the format string: its placeholders must match the argument count
+                let mut v = vec![ps[0].clone()];
+                v.extend(ps[1..].iter().map(|x| twin_expr(x, k)));
+                Expr::Call(f.clone(), v)
+            } else {
+                Expr::Call(f.clone(), ps.iter().map(|x| twin_expr(x, k)).collect())
+            }
+        }
+        other => other.clone(),
+    }
+}
+
+fn twin_var(v: &VarRef, k: u32) -> VarRef {
+    match v {
+        VarRef::Scoped(e, n) => VarRef::Scoped(twin_expr(e, k), n.clone()),
+        other => other.clone(),
+    }
+}
+
+fn twin_stmts(s: &[Stmt], k: u32) -> Vec<Stmt> {
+    s.iter()
+        .map(|x| match x {
+            Stmt::Node(v) => Stmt::Node(twin_var(v, k)),
+            Stmt::Let(v, e) => Stmt::Let(twin_var(v, k), twin_expr(e, k)),
+            Stmt::VarDecl(v, e) => Stmt::VarDecl(twin_var(v, k), twin_expr(e, k)),
+            Stmt::Set(v, e) => Stmt::Set(twin_var(v, k), twin_expr(e, k)),
+            Stmt::Edge(a, b) => Stmt::Edge(twin_expr(a, k), twin_expr(b, k)),
+            Stmt::AttrNode(n, a) => Stmt::AttrNode(twin_expr(n, k), a.iter().map(|(n, e)| (n.clone(), twin_expr(e, k))).collect()),
+            Stmt::AttrEdge(a, b, at) => Stmt::AttrEdge(twin_expr(a, k), twin_expr(b, k), at.iter().map(|(n, e)| (n.clone(), twin_expr(e, k))).collect()),
+            Stmt::If(arms) => Stmt::If(
+                arms.iter()
+                    .map(|a| IfArm {
+                        conds: a
+                            .conds
+                            .iter()
+                            .map(|c| match c {
+                                Cond::Some(e) => Cond::Some(twin_expr(e, k)),
+                                Cond::None(e) => Cond::None(twin_expr(e, k)),
+                                Cond::Bool(e) => Cond::Bool(twin_expr(e, k)),
+                            })
+                            .collect(),
+                        body: twin_stmts(&a.body, k),
+                    })
+                    .collect(),
+            ),
+            Stmt::For(v, e, b) => Stmt::For(v.clone(), twin_expr(e, k), twin_stmts(b, k)),
+            Stmt::Scan(e, arms) => Stmt::Scan(twin_expr(e, k), arms.iter().map(|(r, b)| (r.clone(), twin_stmts(b, k))).collect()),
+            Stmt::Print(es) => Stmt::Print(es.iter().map(|e| twin_expr(e, k)).collect()),
+        })
+        .collect()
+}
+
+pub fn twin(p: &Prog, k: u32, failing: bool) -> Prog {
+    let mut q = p.clone();
+    for s in &mut q.stanzas {
+        s.stmts = twin_stmts(&s.stmts, k);
+    }
+    if failing {
+        // every statement is followed by one that fails, naming its own literal: whichever
+        // stanza matches first produces an error that quotes this file's text
+        for s in &mut q.stanzas {
+            s.stmts.push(Stmt::AttrNode(
+                Expr::Str(format!("not a node {}", k)),
+                vec![(format!("w{}", k), Expr::Int(k))],
+            ));
+        }
+    }
+    q
+}
